@@ -7,6 +7,7 @@ import (
 	"fmt"
 	"os"
 	"strconv"
+	"strings"
 
 	"verifsa/internal/core"
 	"verifsa/internal/load"
@@ -49,6 +50,31 @@ func main() {
 			os.Exit(2)
 		}
 		os.Exit(core.RunProperty(d, *repo, *root, *tier, seed))
+	case "multi":
+		// development aid: several properties over one load of the repository; prints "<ID> rc=<exit code>" per property
+		fs := flag.NewFlagSet("multi", flag.ExitOnError)
+		ids := fs.String("ids", "", "comma-separated property ids (default all)")
+		repo := fs.String("repo", "/repo", "repository under analysis")
+		root := fs.String("root", "/verif", "verification root")
+		_ = fs.Parse(os.Args[2:])
+		list := props.IDs()
+		if *ids != "" {
+			list = strings.Split(*ids, ",")
+		}
+		prog, err := load.Load(*repo, "")
+		rc := 0
+		for _, id := range list {
+			d, ok := props.Get(id)
+			if !ok {
+				continue
+			}
+			r := core.RunPropertyWith(prog, err, d, *repo, *root, "quick", 0)
+			fmt.Printf("MULTI %s rc=%d\n", id, r)
+			if r != 0 {
+				rc = 1
+			}
+		}
+		os.Exit(rc)
 	case "wire":
 		// development aid: dump the extracted wire sequences
 		prog, err := load.Load("/repo", "")
